@@ -478,6 +478,13 @@ func ruleR14(c *Ctx) *RuleResult {
 						// `index >= 0 && index < n` written out in the mover itself: this path already knows 0 <= index
 					case res.Op == "<=" && len(res.Args) == 2 && isZeroT(res.Args[0]) && isIndexLoad(res.Args[1], n) && f.newLtSize:
 						// … or already knows index < n
+					case res.Op == "<" && len(res.Args) == 2 && isIndexLoad(res.Args[0], n) && isSize(res.Args[1]) && dir == "Next" && moved == 1 &&
+						stepVal.Op == "+" && stepVal.Args[0].String() == "#:1" && isIndexLoad(stepVal.Args[1], 0):
+						// after index+1 the lower half holds by the cursor invariant -1 <= index <= n, which this very rule
+						// establishes for every mover (saturation at both ends, Begin/End store -1 / n)
+					case res.Op == "<=" && len(res.Args) == 2 && isZeroT(res.Args[0]) && isIndexLoad(res.Args[1], n) && dir == "Prev" && moved == 1 &&
+						stepVal.Op == "-" && isIndexLoad(stepVal.Args[0], 0) && stepVal.Args[1].String() == "#:1":
+						// mirror: after index-1 the upper half holds by the same invariant
 					case res.Op == "res" && wrapT != nil && strings.HasSuffix(res.Args[0].Leaf, ")."+dir) && hasField(res.Args[0], wrapF):
 						// treeset: result of the wrapped tree iterator
 					case res.String() == "#:true":
